@@ -54,6 +54,74 @@ pub fn shift_chunk_ids(banks: &mut [BankB], rng: &mut impl Rng) {
     }
 }
 
+/// Chunk header fields that carry no meaning for reassembly (device packet sequence, channel sequence)
+/// are re-drawn per (board, chip) group: random, random with the minimum on chunk 0, descending in the
+/// chunk id, or constant.  A correct reassembly looks at neither.
+pub fn scramble_chunk_meta(banks: &mut [BankB], rng: &mut impl Rng) {
+    use std::collections::BTreeMap;
+    let mut groups: BTreeMap<(Vec<u8>, u8), Vec<usize>> = BTreeMap::new();
+    for (k, b) in banks.iter().enumerate() {
+        if b.name.starts_with(b"PC") && b.data.len() >= 28 {
+            groups.entry((b.name.clone(), b.data[10])).or_default().push(k);
+        }
+    }
+    for g in groups.values() {
+        let mode = rng.gen_range(0..4);
+        let n = g.len() as u32;
+        let mut vals: Vec<u32> = (0..n).map(|_| rng.gen_range(1000..1_000_000)).collect();
+        vals.sort();
+        vals.dedup();
+        while (vals.len() as u32) < n {
+            let last = *vals.last().unwrap();
+            vals.push(last + 1);
+        }
+        let mut rest: Vec<u32> = vals[1..].to_vec();
+        rest.shuffle(rng);
+        for &k in g.iter() {
+            let id = u16::from_le_bytes([banks[k].data[12], banks[k].data[13]]) as u32;
+            let v = match mode {
+                0 => rng.gen(),
+                1 => if id == 0 || rest.is_empty() { vals[0] } else { rest[((id - 1) as usize) % rest.len()] },
+                2 => 5000u32.wrapping_sub(id),
+                _ => 77,
+            };
+            banks[k].data[4..8].copy_from_slice(&v.to_le_bytes());
+            banks[k].data[8..10].copy_from_slice(&(v as u16 ^ 0x5a5a).to_le_bytes());
+            crate::pack::refresh_chunk_crcs(&mut banks[k].data);
+        }
+    }
+}
+
+/// orders that follow a header field of the chunks (stable; other banks keep their place at the front)
+fn key_sorted_perms(banks: &[BankB]) -> Vec<Vec<usize>> {
+    let key = |b: &BankB, f: usize| -> Option<u64> {
+        if b.name.starts_with(b"PC") && b.data.len() >= 28 {
+            Some(match f {
+                0 => u32::from_le_bytes([b.data[4], b.data[5], b.data[6], b.data[7]]) as u64,
+                1 => u16::from_le_bytes([b.data[8], b.data[9]]) as u64,
+                _ => u16::from_le_bytes([b.data[12], b.data[13]]) as u64,
+            })
+        } else {
+            None
+        }
+    };
+    let mut out = Vec::new();
+    if !banks.iter().any(|b| key(b, 0).is_some()) {
+        return out;
+    }
+    for f in 0..3 {
+        for desc in [false, true] {
+            let mut p: Vec<usize> = (0..banks.len()).collect();
+            p.sort_by_key(|&k| match key(&banks[k], f) {
+                None => (0u8, 0i64),
+                Some(v) => (1u8, if desc { -(v as i64) } else { v as i64 }),
+            });
+            out.push(p);
+        }
+    }
+    out
+}
+
 fn permute(banks: &[BankB], perm: &[usize]) -> Vec<BankB> {
     perm.iter().map(|&k| banks[k].clone()).collect()
 }
@@ -96,6 +164,7 @@ fn bag_case<R: Rng>(runner: &mut Runner, rng: &mut R, kind: &str, case: String, 
         p.shuffle(rng);
         perms.push(p);
     }
+    perms.extend(key_sorted_perms(&banks));
     let base = obj(vec![
         ("fam", json!("det")),
         ("kind", json!(kind)),
@@ -176,13 +245,19 @@ pub fn run(runner: &mut Runner, data_dir: &str, behaviours: Option<&str>, seed: 
             if bi % step != 0 || beh["seq"].as_array().unwrap().len() < 2 {
                 continue;
             }
-            let banks = evgen::concretize_seq(&mut rng, SIM, beh);
+            let mut banks = evgen::concretize_seq(&mut rng, SIM, beh);
+            if (bi / step) % 2 == 1 {
+                scramble_chunk_meta(&mut banks, &mut rng);
+            }
             bag_case(runner, &mut rng, "model", format!("b{bi}"), SIM, banks, if thorough { nprocs } else { 1 }, nrand);
         }
     }
     // (2) seeded events with injected inconsistencies
     for ci in 0..nrandom_events {
-        let (r, banks, fault) = evgen::random_banks(&mut rng, ci);
+        let (r, mut banks, fault) = evgen::random_banks(&mut rng, ci);
+        if ci % 2 == 1 {
+            scramble_chunk_meta(&mut banks, &mut rng);
+        }
         bag_case(runner, &mut rng, fault, format!("r{ci}"), r, banks, 1, nrand);
     }
     // (2b) two PWB messages from different (board, chip) whose payloads claim the same board and chip, one
@@ -256,6 +331,9 @@ pub fn run(runner: &mut Runner, data_dir: &str, behaviours: Option<&str>, seed: 
         let ev = sim::random_event(&ctx, &mut rng, 1 + (ci as usize % 4));
         let noise = *[0.0, 0.5, 3.0, 10.0].choose(&mut rng).unwrap();
         let mut banks = sim::to_banks(&ctx, &ev, 5000 + ci as u32, 1.0, noise, &mut rng);
+        if (ci / 6 + ci) % 2 == 1 {
+            scramble_chunk_meta(&mut banks, &mut rng);
+        }
         let variant = ci % 6;
         let kind = match variant {
             1 => {
